@@ -39,7 +39,7 @@ extern "C" int LLVMFuzzerTestOneInput(const uint8_t *data, size_t size) {
     uint8_t cfg = size ? data[size - 1] : 0; if (size) size--;
     size_t n = 0; while (n < size && data[n]) n++;
     ExactBuf b(Bytes((const char *) data, n));
-    int which = (cfg & 3) == 0 ? 7 : (cfg & 3) == 1 ? 1 : (cfg & 3) == 2 ? 2 : 4;
+    int which = (cfg & 3) == 0 ? 15 : (cfg & 3) == 1 ? 9 : (cfg & 3) == 2 ? 2 : 4;
     uint64_t d0 = exercise_all(A, &OB[0], b.p, n, which), d1 = exercise_all(A, &OB[1], b.p, n, which);
     R.eval(2);
     const char *at = (const char *) memrchr(b.p, '@', n);
